@@ -156,15 +156,16 @@ class Ctx:
             return False
         return True
 
-    def guard(self, site, facts=None):
-        return _Guard(self, site, facts)
+    def guard(self, site, facts=None, pass_through=()):
+        return _Guard(self, site, facts, pass_through)
 
 
 class _Guard:
     """Turns an exception on an in-scope input into a violation ('raises')."""
 
-    def __init__(self, ctx, site, facts):
+    def __init__(self, ctx, site, facts, pass_through=()):
         self.ctx, self.site, self.facts = ctx, site, facts
+        self.pass_through = pass_through
         self.ok = True
 
     def __enter__(self):
@@ -174,6 +175,8 @@ class _Guard:
         if et is None:
             return False
         if issubclass(et, (KeyboardInterrupt, SystemExit, MemoryError)):
+            return False
+        if self.pass_through and issubclass(et, self.pass_through):
             return False
         self.ok = False
         last = traceback.extract_tb(tb)[-1]
